@@ -378,6 +378,18 @@ func (e *tlEnv) sinks() []tlSink {
 					if sc := x.Call.StaticCallee(); sc != nil && sc.Name() == "unsafe_NewArray" && isLinknameStub(sc) {
 						add(in, "alloc", x.Call.Args[1], nil)
 					}
+					// allocations sized through reflect or the standard library's growers
+					if sc := x.Call.StaticCallee(); sc != nil {
+						switch qualName(sc) {
+						case "reflect.MakeMapWithSize", "reflect.MakeChan":
+							add(in, "alloc", x.Call.Args[1], nil)
+						case "reflect.MakeSlice":
+							add(in, "alloc", x.Call.Args[1], nil)
+							add(in, "alloc", x.Call.Args[2], nil)
+						case "(*bytes.Buffer).Grow", "(*strings.Builder).Grow", "slices.Grow":
+							add(in, "alloc", x.Call.Args[len(x.Call.Args)-1], nil)
+						}
+					}
 				}
 			}
 		}
